@@ -287,8 +287,9 @@ def _obs_gen(cfg, seed, n, key=None):
     pin_arg = pin[:, 0] if cfg.get("flat_in") and pin.shape[1] == 1 else pin
     val_arg = val[:, 0] if cfg.get("flat_val") and val.shape[1] == 1 else val
     eq_arg = {k: (jnp.asarray(v[:, 0]) if cfg.get("flat_eq") else jnp.asarray(v)) for k, v in eq.items()}
+    shard = jax.sharding.SingleDeviceSharding(jax.devices()[0]) if cfg.get("shard") else None
     g = DataGeneratorObservations(jax.random.PRNGKey(seed) if key is None else key, cfg["b"], jnp.asarray(pin_arg),
-                                  jnp.asarray(val_arg), eq_arg)
+                                  jnp.asarray(val_arg), eq_arg, shard)
     return g, pin, val, eq
 
 
